@@ -26,7 +26,7 @@ EXPLANATION = (
     "possibly-Deferred value; synchronous generate_assignments is not one) must be dominated by a re-check of "
     "_stopping located after that suspension (facts on self.* are killed at suspensions)."
 )
-SHARED = [('C13', ['R5'], 'consumers shut down before a rejoin commit everything they processed'), ('C03', ['R6', 'R7'], "partition consumers start from the group's committed position and commit with their generation and member id")]
+SHARED = [('C13', ['R5'], 'consumers shut down before a rejoin commit everything they processed'), ('C03', ['R6', 'R7'], "partition consumers start from the group's committed position and commit with their generation and member id"), ('C14', ['R3'], 'a consumer that cannot learn the committed position fails instead of starting elsewhere'), ('C02', ['R6'], "consumers start from the group's committed position")]
 ASSUMPTIONS = [
     "Twisted inlineCallbacks: other code (stop()) can run at every yield of a pending Deferred, not between yields",
     "Consumer.shutdown()/stop() semantics are those checked by C13",
